@@ -1,17 +1,28 @@
 #!/usr/bin/env python3
 import json, os, glob
 HERE = os.path.dirname(os.path.dirname(os.path.abspath(__file__)))
-r = {1: [0, 0, 0], 2: [0, 0, 0]}   # total, first caught, now caught
-miss_first, miss_now = [], []
-for d in sorted(glob.glob(os.path.join(HERE, 'seeded', 'C*-*'))):
+def rnd(k):
+    return 1 if k <= 3 else (k - 4) // 2 + 2      # r1: 1-3, r2: 4-5, r3: 6-7, ...
+r = {}
+miss_first, miss_now, outside = [], [], []
+def key(d):
+    b = os.path.basename(d); p, k = b.split('-'); return (p, int(k))
+for d in sorted(glob.glob(os.path.join(HERE, 'seeded', 'C*-*')), key=key):
     m = json.load(open(os.path.join(d, 'meta.json')))
-    pid = m['breaks']; k = int(os.path.basename(d).split('-')[1]); rd = 1 if k <= 3 else 2
+    pid = m['breaks']; k = int(os.path.basename(d).split('-')[1]); rd = rnd(k)
+    if m.get('judged_outside'):
+        outside.append(os.path.basename(d)); continue
     f = (m.get('first_eval') or m.get('checks', {}).get(pid) or {}).get('rc') == 1
     n = (m.get('checks', {}).get(pid) or {}).get('rc') == 1
-    r[rd][0] += 1; r[rd][1] += f; r[rd][2] += n
+    t = r.setdefault(rd, [0, 0, 0])
+    t[0] += 1; t[1] += f; t[2] += n
     if not f: miss_first.append(os.path.basename(d))
     if not n: miss_now.append(os.path.basename(d))
-for rd in (1, 2):
-    print('round %d: %d seeds, %d caught at first evaluation, %d caught by the current checks' % (rd, *r[rd]))
+tot = [0, 0, 0]
+for rd in sorted(r):
+    print('round %d: %3d seeds, %3d caught at first evaluation (%2d%%), %3d caught by the current checks' % (rd, r[rd][0], r[rd][1], round(100 * r[rd][1] / max(r[rd][0], 1)), r[rd][2]))
+    tot = [a + b for a, b in zip(tot, r[rd])]
+print('all     : %3d seeds, %3d caught at first evaluation (%2d%%), %3d caught by the current checks' % (tot[0], tot[1], round(100 * tot[1] / max(tot[0], 1)), tot[2]))
 print('missed at first evaluation:', ' '.join(miss_first))
-print('missed now:', ' '.join(miss_now))
+print('missed now:', ' '.join(miss_now) or '(none)')
+print('judged not to violate the property they were written for (kept, not counted):', ' '.join(outside) or '(none)')
